@@ -1,4 +1,4 @@
-import MokapotVerif.Lemmas.TabularJoined
+import MokapotVerif.Lemmas.TabularSession
 /-!
 # C13 — Chunked table reading equals whole reading; writers lose and reorder nothing
 
@@ -274,6 +274,180 @@ theorem C13_writer_roundtrip_parquet (cols : List Name) (hn : cols.Nodup) (k : K
 theorem C13_parquet_unfinalised_unreadable (cols : List Name) (groups : List (List (List β))) :
     pqDiskReader (some ⟨⟨cols, groups⟩, true⟩ : Option (PqDisk β)) = none := rfl
 
+/-! ## extension: the writer object in use — context managers, `auto_finalize`,
+one-shot `write`, the separator option, frame readers from a series / an array -/
+
+/-- **Using the writer object call by call is the run the round-trip theorems are
+about.**  For the object `TabularDataWriter.from_suffix` returns (any file writer,
+buffer kind and size), `initialize(); append_data(a₁); …; finalize()` issued one
+call at a time — equivalently `with writer: …`, since `__enter__`/`__exit__` are
+`initialize`/`finalize` — leaves the file writer's storage exactly as
+`runFromSuffix` says, failures included. -/
+theorem C13_session_eq_run (w : Writer σ β) (k : Kind) (size : Nat) (s0 : σ) (args : List (Arg β)) :
+    (runSess (fromSuffixSess w k size) (none, s0) args).map (fun p => p.2) = runFromSuffix w k size s0 args :=
+  runSess_fromSuffix w k size s0 args
+
+/-- **`with auto_finalize(writers)`: every writer ends as if it had been used
+alone.**  For any writers (of any kinds, in any states) and any program of appends
+`writers[i].append_data(a)` interleaved in any way: if the block completes, the
+final state of writer `j` is the one `with writers[j]:` alone with *its own*
+appends, in their order, would have produced — no append reaches another writer,
+none is lost, every writer is initialised before and finalised after its appends;
+and the block does complete whenever each writer alone would accept its appends. -/
+theorem C13_auto_finalize_independent (ws : List (Sess σ β × σ)) (prog : List (Nat × Arg β)) :
+    (∀ out, runAuto ws prog = some out →
+        out.length = ws.length
+          ∧ ∀ j p, ws[j]? = some p → ∃ t, runSess p.1 p.2 (argsFor j prog) = some t ∧ out[j]? = some t)
+      ∧ ((∀ q ∈ prog, q.1 < ws.length) →
+          (∀ j p, ws[j]? = some p → (runSess p.1 p.2 (argsFor j prog)).isSome = true) →
+          (runAuto ws prog).isSome = true) :=
+  ⟨fun out h => runAuto_solo ws prog out h, fun hidx hsolo => runAuto_isSome ws prog hidx hsolo⟩
+
+/-- **Delimited-text writer round trip for every separator** (`sep=` of
+`from_suffix`, handed on to the associated reader).  For any separator, any
+previous file content (written with any separator), columns (at least one),
+buffer kind and size and any sequence of well-formed appends issued call by call:
+the run succeeds, `get_associated_reader()` — which is built with the writer's
+separator — exists, reads back exactly the appended rows in order under the
+writer's columns, labelled `0, 1, …`, and satisfies `ChunkOK`. -/
+theorem C13_writer_roundtrip_text_sep (cols : List Name) (hne : cols ≠ []) (sep : String) (k : Kind) (size : Nat)
+    (old : Option (SepFile β)) (args : List (Arg β))
+    (hargs : ∀ a ∈ args, ArgWF cols (if 1 < size then k else Kind.dataframe) a) :
+    ∃ st rd, runSess (fromSuffixSess (csvWriterSep cols sep) k size) (none, old) args = some st
+      ∧ csvAssocReader sep st.2 = some rd
+      ∧ rd.read none = some ⟨cols, indexFrom 0 (args.flatMap Arg.rows)⟩
+      ∧ ChunkOK rd := by
+  obtain ⟨frames, h1, h2, h3⟩ := fromSuffix_frames (csvWriterSep cols sep) cols k size old args hargs
+  have hrun := runSess_fromSuffix (csvWriterSep cols sep) k size old args
+  rw [h1, csvSep_run cols sep old frames (fun f hf => (h2 f hf).1)] at hrun
+  obtain ⟨st, hst, hst2⟩ := Option.map_eq_some_iff.mp hrun
+  refine ⟨st, csvReader ⟨cols, frames.flatMap (fun f => f.rows.map rowVals)⟩, hst, ?_, ?_, csvReader_chunkOK _⟩
+  · rw [hst2]; simp [csvAssocReader, csvReaderSep]
+  · have hl : frames.flatMap (fun f => f.rows.map rowVals) = (frames.flatMap (fun f => f.rows)).map rowVals := by
+      simp [List.flatMap_def, List.map_flatten, List.map_map, Function.comp_def]
+    rw [hl, h3]
+    apply csv_readback cols hne
+    intro r hr
+    rw [← h3] at hr
+    obtain ⟨f, hf, hrf⟩ := List.mem_flatMap.mp hr
+    exact (h2 f hf).2 r hrf
+
+/-- a reader built with another separator than the writer's does not read the
+file (in the model: not available) — the associated reader must carry `sep` -/
+theorem C13_text_other_separator_unreadable (cols : List Name) (sep sep' : String) (hs : sep' ≠ sep)
+    (lines : List (List β)) :
+    (csvAssocReader sep' (some ⟨sep, ⟨cols, lines⟩⟩ : Option (SepFile β))).isNone = true := by
+  simp [csvAssocReader, csvReaderSep, hs]
+
+/-- **`auto_finalize` over text writers: every file reads back its own rows.**
+Any number of text writers from `from_suffix` — each with its own columns,
+separator, buffer kind and size, over any previous file content — used inside one
+`with auto_finalize(writers)` block with their appends interleaved in any way
+(every append well-formed for the writer it goes to): the block completes, and
+the associated reader of writer `j` reads back exactly the rows appended to
+writer `j`, in order, unchanged, and satisfies `ChunkOK`. -/
+theorem C13_auto_finalize_roundtrip_text
+    (specs : List (List Name × String × Kind × Nat × Option (SepFile β))) (prog : List (Nat × Arg β))
+    (hne : ∀ s ∈ specs, s.1 ≠ [])
+    (hprog : ∀ q ∈ prog, ∃ s, specs[q.1]? = some s
+      ∧ ArgWF s.1 (if 1 < s.2.2.2.1 then s.2.2.1 else Kind.dataframe) q.2) :
+    ∃ out, runAuto (specs.map (fun s =>
+              (fromSuffixSess (csvWriterSep s.1 s.2.1) s.2.2.1 s.2.2.2.1, ((none : Option (WFrame β)), s.2.2.2.2)))) prog
+            = some out
+      ∧ out.length = specs.length
+      ∧ ∀ j s, specs[j]? = some s → ∃ st rd, out[j]? = some st ∧ csvAssocReader s.2.1 st.2 = some rd
+          ∧ rd.read none = some ⟨s.1, indexFrom 0 ((argsFor j prog).flatMap Arg.rows)⟩ ∧ ChunkOK rd := by
+  have hsolo : ∀ j s, specs[j]? = some s →
+      ∃ st rd, runSess (fromSuffixSess (csvWriterSep s.1 s.2.1) s.2.2.1 s.2.2.2.1) (none, s.2.2.2.2) (argsFor j prog)
+          = some st ∧ csvAssocReader s.2.1 st.2 = some rd
+        ∧ rd.read none = some ⟨s.1, indexFrom 0 ((argsFor j prog).flatMap Arg.rows)⟩ ∧ ChunkOK rd := by
+    intro j s hs
+    apply C13_writer_roundtrip_text_sep s.1 (hne s (List.mem_of_getElem? hs)) s.2.1 s.2.2.1 s.2.2.2.1 s.2.2.2.2
+    intro a ha
+    simp only [argsFor, List.mem_map, List.mem_filter] at ha
+    obtain ⟨q, ⟨hq, hqj⟩, rfl⟩ := ha
+    obtain ⟨s', hs', hwf⟩ := hprog q hq
+    have : q.1 = j := by simpa using hqj
+    rw [this, hs] at hs'
+    cases hs'
+    exact hwf
+  have hsome : (runAuto (specs.map (fun s =>
+      (fromSuffixSess (csvWriterSep s.1 s.2.1) s.2.2.1 s.2.2.2.1, ((none : Option (WFrame β)), s.2.2.2.2)))) prog).isSome
+      = true := by
+    apply (C13_auto_finalize_independent _ prog).2
+    · intro q hq
+      obtain ⟨s, hs, _⟩ := hprog q hq
+      simpa using (List.getElem?_eq_some_iff.mp hs).1
+    · intro j p hp
+      simp only [List.getElem?_map, Option.map_eq_some_iff] at hp
+      obtain ⟨s, hs, rfl⟩ := hp
+      obtain ⟨st, _, h, _⟩ := hsolo j s hs
+      simp [h]
+  obtain ⟨out, hout⟩ := Option.isSome_iff_exists.mp hsome
+  obtain ⟨hlen, hget⟩ := (C13_auto_finalize_independent _ prog).1 out hout
+  refine ⟨out, hout, by simpa using hlen, ?_⟩
+  intro j s hs
+  obtain ⟨t, ht, hoj⟩ := hget j
+    (fromSuffixSess (csvWriterSep s.1 s.2.1) s.2.2.1 s.2.2.2.1, ((none : Option (WFrame β)), s.2.2.2.2))
+    (by simp [List.getElem?_map, hs])
+  obtain ⟨st, rd, h1, h2, h3, h4⟩ := hsolo j s hs
+  rw [h1] at ht
+  have hst : st = t := Option.some.inj ht
+  rw [hst] at h2
+  exact ⟨t, rd, hoj, h2, h3, h4⟩
+
+/-- **One-shot `write(data)` on a text writer** (`from_suffix(...).write(df)`,
+buffered or not — the buffer is by-passed): it is `initialize(); append_data(df);
+finalize()` on the bare file writer, failures included; and for a frame carrying
+the writer's columns, over any previous file content, the file then reads back
+exactly the frame's rows, in order, unchanged, labelled `0, 1, …`. -/
+theorem C13_write_once_text (cols : List Name) (k : Kind) (size : Nat) (old : Option (CsvFile β)) (f : WFrame β) :
+    writeFromSuffix (csvWrite1 cols) size old f = runFromSuffix (csvWriter cols) k 0 old [Arg.frame f]
+      ∧ (cols ≠ [] → f.names = cols → (∀ r ∈ f.rows, rowKeys r = cols) →
+          ∃ disk rd, writeFromSuffix (csvWrite1 cols) size old f = some disk
+            ∧ csvDiskReader disk = some rd
+            ∧ rd.read none = some ⟨cols, indexFrom 0 f.rows⟩ ∧ ChunkOK rd) := by
+  rw [writeFromSuffix_eq]
+  constructor
+  · by_cases hn : f.names = cols
+    · simp [csvWrite1, baseWrite, hn, runFromSuffix, optAll, argFrame]
+    · simp [csvWrite1, baseWrite, hn, runFromSuffix, optAll, argFrame, runWriter, csvWriter, csvInit, foldOpt,
+        csvAppend]
+  · intro hne hn hk
+    rw [csvWrite1_eq cols old f hn]
+    exact ⟨_, _, rfl, rfl, csv_readback cols hne f.rows hk, csvReader_chunkOK _⟩
+
+/-- **One-shot `write(data)` on a Parquet writer** (`DataFrame.to_parquet`, the
+`ParquetWriter` and its schema are not involved; buffered or not): for a frame
+carrying the writer's columns the result is a complete file — readable without
+any `finalize` — that reads back exactly the frame's rows, in order, unchanged,
+labelled `0, 1, …`, whatever the file held before. -/
+theorem C13_write_once_parquet (cols : List Name) (size : Nat) (old : Option (PqDisk β)) (f : WFrame β)
+    (hn : f.names = cols) (hk : ∀ r ∈ f.rows, rowKeys r = cols) :
+    ∃ disk rd, writeFromSuffix (pqWrite1 cols) size old f = some disk
+      ∧ pqDiskReader disk = some rd
+      ∧ rd.read none = some ⟨cols, indexFrom 0 f.rows⟩ ∧ ChunkOK rd := by
+  rw [writeFromSuffix_eq]
+  refine ⟨_, _, rfl, rfl, ?_, pqReader_chunkOK _⟩
+  have := pq_readback cols [f.rows] (by
+    intro g hg r hr
+    simp only [List.mem_singleton] at hg
+    subst hg
+    exact hk r hr)
+  simpa [hn] using this
+
+/-- `DataFrameReader.from_series` / `from_array`: one-column frame readers — chunk-wise
+= whole, and they read the one-column table of the values (a series under its own
+index labels, an array under `0, 1, …`) -/
+theorem C13_series_array_readers (sname : Name) (name : Option Name) (vals : List (Nat × β)) (arr : List β)
+    (aname : Name) :
+    (ChunkOK (seriesReader sname name vals)
+        ∧ ReadsTable (seriesReader sname name vals)
+            ⟨[name.getD sname], vals.map (fun iv => (iv.1, [(name.getD sname, iv.2)]))⟩ true)
+      ∧ (ChunkOK (arrayReader aname arr)
+        ∧ ReadsTable (arrayReader aname arr) ⟨[aname], indexFrom 0 (arr.map (fun v => [(aname, v)]))⟩ true) :=
+  ⟨⟨frameReader_chunkOK _, frameReader_readsTable _⟩, ⟨frameReader_chunkOK _, frameReader_readsTable _⟩⟩
+
 /-! ## Non-vacuity: the hypotheses are met by concrete, non-trivial inputs -/
 
 /-- a 5-row text file with three columns -/
@@ -345,5 +519,48 @@ example : ∀ p ∈ [(csvReader exFile, exFile.table, true), (frameReader exFram
 -- the text writer refuses a frame whose columns are in another order; an unbuffered writer refuses dicts
 #guard (runFromSuffix (csvWriter ["a", "b"]) Kind.dataframe 0 none [Arg.frame ⟨["b", "a"], [[("b", 2), ("a", 1)]]⟩]).isNone
 #guard (runFromSuffix (csvWriter ["a", "b"]) Kind.dicts 0 none [Arg.dict [("a", 1), ("b", 2)]]).isNone
+
+/-! ### extension: non-vacuity and evaluation tests -/
+
+/-- the hypotheses of the second half of `C13_computed_reader`: a new column name and a function of the index label -/
+example : "k" ∉ exFile.table.names ∧ ∀ (i : Nat) (x y : Row Nat), (fun (j : Nat) (_ : Row Nat) => 10 * j + 1) i x
+    = (fun (j : Nat) (_ : Row Nat) => 10 * j + 1) i y := ⟨by decide, fun _ _ _ => rfl⟩
+
+/-- two text writers (different separators, one buffered with dicts, one
+unbuffered over a stale file) and an interleaved program meeting the hypotheses
+of `C13_auto_finalize_roundtrip_text` -/
+def exSpecs : List (List Name × String × Kind × Nat × Option (SepFile Nat)) :=
+  [(["a", "b"], ",", Kind.dicts, 2, none), (["c"], "\t", Kind.dataframe, 0, some ⟨";", ⟨["old"], [[9]]⟩⟩)]
+def exProg : List (Nat × Arg Nat) :=
+  [(0, Arg.dict [("a", 1), ("b", 2)]), (1, Arg.frame ⟨["c"], [[("c", 7)], [("c", 8)]]⟩),
+   (0, Arg.dictList [[("a", 3), ("b", 4)], [("a", 5), ("b", 6)]]), (1, Arg.frame ⟨["c"], []⟩)]
+
+example : ∀ s ∈ exSpecs, s.1 ≠ [] := by decide
+example : ∀ q ∈ exProg, ∃ s, exSpecs[q.1]? = some s
+    ∧ ArgWF s.1 (if 1 < s.2.2.2.1 then s.2.2.1 else Kind.dataframe) q.2 := by
+  intro q hq
+  simp only [exProg, List.mem_cons, List.mem_nil_iff, or_false] at hq
+  rcases hq with rfl | rfl | rfl | rfl <;>
+    simp [exSpecs, ArgWF, argOK, Arg.rows, Arg.names, rowKeys]
+
+-- auto_finalize: each file holds its own rows; the stale file (other separator) is gone
+#guard (runAuto (exSpecs.map (fun s =>
+          (fromSuffixSess (csvWriterSep s.1 s.2.1) s.2.2.1 s.2.2.2.1, ((none : Option (WFrame Nat)), s.2.2.2.2)))) exProg).map
+        (fun out => out.map (fun st => st.2)) ==
+  some [some ⟨",", ⟨["a", "b"], [[1, 2], [3, 4], [5, 6]]⟩⟩, some ⟨"\t", ⟨["c"], [[7], [8]]⟩⟩]
+-- an append to a writer that is not in the list raises
+#guard (runAuto [(fromSuffixSess (csvWriterSep ["c"] "\t") Kind.dataframe 0, ((none : Option (WFrame Nat)), none))]
+          [(1, Arg.frame ⟨["c"], []⟩)]).isNone
+-- one-shot write: text (stale content gone, column order checked), Parquet (one row group, closed, frame's order)
+#guard writeFromSuffix (csvWrite1 ["a", "b"]) 5 (some ⟨["old"], [[99]]⟩) ⟨["a", "b"], [[("a", 1), ("b", 2)]]⟩ ==
+  some (some ⟨["a", "b"], [[1, 2]]⟩)
+#guard (writeFromSuffix (csvWrite1 ["a", "b"]) 0 none (⟨["b", "a"], [[("b", 2), ("a", 1)]]⟩ : WFrame Nat)).isNone
+#guard writeFromSuffix (pqWrite1 ["a", "b"]) 3 none (⟨["a", "b"], [[("a", 1), ("b", 2)], [("a", 3), ("b", 4)]]⟩ : WFrame Nat) ==
+  some (some ⟨⟨["a", "b"], [[[1, 2], [3, 4]]]⟩, false⟩)
+-- series / array readers
+#guard ((seriesReader "s" none [(5, 70), (6, 71), (7, 72)]).chunked 2 none).map (fun chs => chs.map (fun d => d.rows)) ==
+  some [[(5, [("s", 70)]), (6, [("s", 71)])], [(7, [("s", 72)])]]
+#guard ((arrayReader "x" [70, 71, 72]).read (some ["x"])).map (fun d => d.index) == some [0, 1, 2]
+#guard (seriesReader "s" (some "n") [(5, 70)]).names == ["n"]
 
 end Mk.Tabular
